@@ -246,6 +246,12 @@ func (e *EvalEnv) Eval(x ast.Expr) (Val, error) {
 func (e *EvalEnv) ident(name string) (Val, error) {
 	// local_<name>: the source-level local variable <name> even when the name is a contract keyword (result, ...)
 	if strings.HasPrefix(name, "local_") && e.Fr != nil {
+		if vals := e.Fr.Names["&"+name[6:]]; len(vals) > 0 {
+			// address-taken local (or a parameter copied to the stack because its address is taken): current content
+			if p, ok := e.Fr.Env[vals[len(vals)-1]].(PtrV); ok {
+				return e.X.Load(e.state(), p)
+			}
+		}
 		if v, ok := e.Vars[name[6:]]; ok {
 			return v, nil // loop-header phi bound by the loop environment
 		}
@@ -259,6 +265,12 @@ func (e *EvalEnv) ident(name string) (Val, error) {
 			}
 			if val, ok := e.Fr.Env[vals[len(vals)-1]]; ok {
 				return val, nil
+			}
+		}
+		if vals := e.Fr.Names["&"+name[6:]]; len(vals) > 0 {
+			// address-taken local (or a parameter copied to the stack because its address is taken): current content
+			if p, ok := e.Fr.Env[vals[len(vals)-1]].(PtrV); ok {
+				return e.X.Load(e.state(), p)
 			}
 		}
 		return nil, fmt.Errorf("no local variable %s in scope", name[6:])
